@@ -680,7 +680,27 @@ func ruleG4(c *Ctx) {
 	m := c.M
 	c.rule("G4", "mounts re-sorted: on every successful path of AdjustMounts the mount list is sorted after the last AddMount; the comparator compares path depth before destination, depth being the number of separators of the cleaned destination", 3)
 	f := m.method(pkgGen, "Generator", "AdjustMounts")
-	sortM := m.method(pkgGen, "Generator", "sortMounts")
+	// the sorting step: a function of this package called by AdjustMounts that hands the mounts to sort.Sort / sort.Stable
+	isSortCall := func(ci ssa.CallInstruction) bool {
+		g := m.callee(ci.Common())
+		return g != nil && (g.String() == "sort.Sort" || g.String() == "sort.Stable")
+	}
+	var sortM *ssa.Function
+	for _, ci := range calls(f) {
+		g := m.callee(ci.Common())
+		if g == nil || g.Pkg == nil || g.Pkg.Pkg.Path() != pkgGen || len(g.Blocks) == 0 {
+			continue
+		}
+		for _, ci2 := range calls(g) {
+			if isSortCall(ci2) {
+				sortM = g
+			}
+		}
+	}
+	if sortM == nil {
+		c.violate("G4", "AdjustMounts/sort", f.Pos(), "AdjustMounts sorts the mounts after the last added mount on every successful path", "AdjustMounts calls no function of this package that sorts (sort.Sort / sort.Stable): mounts are applied in the order the plugins listed them, a mount may precede the mount of its parent directory")
+		return
+	}
 	var adds, sorts []ssa.CallInstruction
 	for _, ci := range calls(f) {
 		g := m.callee(ci.Common())
@@ -697,9 +717,6 @@ func ruleG4(c *Ctx) {
 	bad := ""
 	if len(adds) == 0 {
 		bad = "no call adding a mount found in AdjustMounts"
-	}
-	if len(sorts) == 0 {
-		bad = "AdjustMounts never sorts the mounts"
 	}
 	if bad == "" {
 		for _, r := range returnsOf(f) {
@@ -729,13 +746,14 @@ func ruleG4(c *Ctx) {
 		}
 	}
 	c.ok("G4", "AdjustMounts/sort", f.Pos(), bad == "", "AdjustMounts sorts the mounts after the last added mount on every successful path", bad)
-	// sortMounts really sorts the spec's mounts with the comparator and stores them back
-	okSort, okStore := false, false
+	// the sorting step really sorts the spec's mounts with a comparator type and stores them back
+	var cmpT *types.Named
+	okStore := false
 	for _, ci := range calls(sortM) {
-		if g := m.callee(ci.Common()); g != nil && (g.String() == "sort.Sort" || g.String() == "sort.Stable") {
+		if isSortCall(ci) {
 			if mi, ok := ci.Common().Args[0].(*ssa.MakeInterface); ok {
-				if n, ok := types.Unalias(mi.X.Type()).(*types.Named); ok && tname(n.Obj()) == "orderedMounts" {
-					okSort = true
+				if n, ok := types.Unalias(mi.X.Type()).(*types.Named); ok && n.Obj().Pkg() != nil && n.Obj().Pkg().Path() == pkgGen {
+					cmpT = n
 				}
 			}
 		}
@@ -744,22 +762,67 @@ func ruleG4(c *Ctx) {
 		for _, in := range b.Instrs {
 			if st, ok := in.(*ssa.Store); ok {
 				a := m.ap(st.Addr)
-				if a.Root == ssa.Value(sortM.Params[0]) && len(a.Path) > 0 && a.Path[len(a.Path)-1] == "Mounts" {
+				if _, isP := a.Root.(*ssa.Parameter); isP && len(a.Path) > 0 && a.Path[len(a.Path)-1] == "Mounts" {
 					okStore = true
 				}
 			}
 		}
 	}
-	c.ok("G4", "sortMounts", sortM.Pos(), okSort && okStore, "sortMounts sorts with the orderedMounts comparator and stores the result in the spec",
-		"sortMounts does not sort with orderedMounts or does not store the sorted list back")
-	less := m.method(pkgGen, "orderedMounts", "Less")
-	parts := m.method(pkgGen, "orderedMounts", "parts")
-	// Less: compares parts(i) < parts(j) first (returning true), then parts(j) < parts(i) (false), then Destination
+	c.ok("G4", "sortMounts", sortM.Pos(), cmpT != nil && okStore, "the sorting step sorts with the package's mount comparator and stores the result in the spec",
+		"the sorting step does not sort with a comparator type of this package or does not store the sorted list back")
+	if cmpT == nil {
+		return
+	}
+	less := m.method(pkgGen, cmpT.Obj().Name(), "Less")
+	// which of Less's index parameters a value is taken at: the parameter itself, or an element m[i] (or a field of it)
+	indexOf := func(v ssa.Value) ssa.Value {
+		for d := 0; d < 6; d++ {
+			switch x := v.(type) {
+			case *ssa.Parameter:
+				return x
+			case *ssa.UnOp:
+				v = x.X
+			case *ssa.FieldAddr:
+				v = x.X
+			case *ssa.Field:
+				v = x.X
+			case *ssa.IndexAddr:
+				return x.Index
+			case *ssa.Index:
+				return x.Index
+			default:
+				return nil
+			}
+		}
+		return nil
+	}
+	// the depth function: called twice in Less, once per index
+	var depthFn *ssa.Function
 	var partCalls []*ssa.Call
 	for _, ci := range calls(less) {
-		if call, ok := ci.(*ssa.Call); ok && m.callee(call.Common()) == parts {
+		call, ok := ci.(*ssa.Call)
+		if !ok {
+			continue
+		}
+		g := m.callee(call.Common())
+		if g == nil || g.Pkg == nil || g.Pkg.Pkg.Path() != pkgGen || g.Signature.Results().Len() != 1 {
+			continue
+		}
+		if depthFn == nil || depthFn == g {
+			depthFn = g
 			partCalls = append(partCalls, call)
 		}
+	}
+	argIndex := func(call *ssa.Call) ssa.Value {
+		for _, a := range call.Call.Args {
+			if a == ssa.Value(less.Params[0]) {
+				continue
+			}
+			if ix := indexOf(a); ix != nil {
+				return ix
+			}
+		}
+		return nil
 	}
 	okLess := len(partCalls) == 2
 	var depthCmp, destCmp *ssa.BinOp
@@ -794,30 +857,39 @@ func ruleG4(c *Ctx) {
 				okLess = false
 			}
 		}
-		// arguments: parts(i), parts(j) and m[i].Destination < m[j].Destination
+		// operands: depth(i) < depth(j), and Destination of element i < Destination of element j
 		if len(partCalls) == 2 {
-			if partCalls[0].Call.Args[1] != ssa.Value(less.Params[1]) || partCalls[1].Call.Args[1] != ssa.Value(less.Params[2]) {
+			if argIndex(partCalls[0]) != ssa.Value(less.Params[1]) || argIndex(partCalls[1]) != ssa.Value(less.Params[2]) {
 				okLess = false
 			}
 		}
+		if indexOf(destCmp.X) != ssa.Value(less.Params[1]) || indexOf(destCmp.Y) != ssa.Value(less.Params[2]) {
+			okLess = false
+		}
 	}
 	c.ok("G4", "orderedMounts.Less", less.Pos(), okLess, "the comparator orders by path depth first (fewer parts first), then by destination",
-		"Less does not compare parts(i) < parts(j) before comparing destinations: a mount may be ordered before the mount of its parent directory")
+		"Less does not compare depth(i) < depth(j) before comparing the destinations of i and j: a mount may be ordered before the mount of its parent directory")
 	okParts := false
-	for _, ci := range calls(parts) {
-		if g := m.callee(ci.Common()); g != nil && g.String() == "strings.Count" {
-			if inner, ok := ci.Common().Args[0].(*ssa.Call); ok {
-				if h := m.callee(inner.Common()); h != nil && h.String() == "path/filepath.Clean" {
-					a := m.ap(inner.Call.Args[0])
-					if len(a.Path) > 0 && a.Path[len(a.Path)-1] == "Destination" {
-						okParts = true
+	if depthFn != nil {
+		for _, ci := range calls(depthFn) {
+			if g := m.callee(ci.Common()); g != nil && g.String() == "strings.Count" {
+				if inner, ok := ci.Common().Args[0].(*ssa.Call); ok {
+					if h := m.callee(inner.Common()); h != nil && h.String() == "path/filepath.Clean" {
+						a := m.ap(inner.Call.Args[0])
+						if len(a.Path) > 0 && a.Path[len(a.Path)-1] == "Destination" {
+							okParts = true
+						}
 					}
 				}
 			}
 		}
 	}
-	c.ok("G4", "orderedMounts.parts", parts.Pos(), okParts, "depth is the number of path separators in the cleaned destination",
-		"parts does not count separators of filepath.Clean(Destination)")
+	pos := less.Pos()
+	if depthFn != nil {
+		pos = depthFn.Pos()
+	}
+	c.ok("G4", "orderedMounts.parts", pos, okParts, "depth is the number of path separators in the cleaned destination",
+		"the depth function does not count separators of filepath.Clean(Destination)")
 }
 
 // ---------------------------------------------------------------- V6 env separator (C13, C14)
@@ -849,6 +921,12 @@ func ruleV6(c *Ctx) {
 						}
 					}
 				case *ssa.Call:
+					if g := m.callee(x.Common()); g != nil && g.String() == "strings.Cut" {
+						// Cut splits at the first separator only: two parts by construction
+						if cs, ok := constString(x.Call.Args[1]); ok {
+							sep, found = cs, true
+						}
+					}
 					if g := m.callee(x.Common()); g != nil && g.String() == "strings.SplitN" {
 						if cs, ok := constString(x.Call.Args[1]); ok {
 							sep, found = cs, true
